@@ -31,6 +31,7 @@ TABLE = [
     ("C06", r".*", r"dense\.|interp\.", ["event_interpolant_right_end"]),
     ("C18", r".*", r"nfev|naccpt|nstep|njev", ["counters"]),
     ("C19", r".*", r"fsal|proto\.|naccpt", ["counters", "modified_solution_doubling"]),
+    ("C19", r"radau|bdf|rk|dp", r".*", ["modified_solution_doubling", "initial_modified_solution"]),
     ("C02", r".*", r"fsal", ["counters"]),
     ("C04", r".*", r"term\.|safety", ["termination", "negative_time_blowup"]),
     ("C17", r"matrix_sub|matrix_add", r".*", ["matrix_arith_dense_model"]),
@@ -42,13 +43,14 @@ TABLE = [
     ("C08", r"solout", r"brent|events\.time|span\.", ["brent_stays_in_bracket"]),
     ("C03", r"solout", r"brent|event_function|events\.time", ["brent_stays_in_bracket"]),
     ("C09", r".*", r"brent", ["brent_stays_in_bracket"]),
-    ("C09", r".*", r".*", ["teval_terminal"]),
+    ("C09", r".*", r".*", ["events_order_independent", "teval_terminal"]),
     ("C10", r".*", r".*", ["teval_terminal", "events_multi_in_step"]),
     ("C12", r".*", r".*", ["output_options"]),
     ("C13", r".*", r"err\.|norm\.", ["duplication_invariance"]),
     ("C13", r".*", r"step\.|hinit|dir", ["time_reflection", "pow2_scaling"]),
     ("C13", r".*", r".*", ["radau_scalar_vector_tol", "duplication_invariance", "time_reflection", "pow2_scaling"]),
     ("C20", r"cont_R", r".*", ["extrapolate_equals_sol"]),
+    ("C20", r"sparsity_A|sparsefd_A", r".*", ["sparsity_groups"]),
     ("C02", r"radau", r".*", ["radau_pade"]),
 ]
 _BUILT = {}
